@@ -224,6 +224,7 @@ class Manager:
         self._executing_thread = None
         self._flushing_thread = None
         self._running = False
+        self._exit_code = None
         self.__thread = None
         self.__process = None
         self._lock = RLock()
@@ -781,6 +782,12 @@ class Manager:
         if not self.running:
             return
 
+        if code is not None:
+            # If a loop is executing, run() raises SystemExit(code) to its
+            # caller once it has processed what is (or becomes) queued
+            # because of stopping; else it is raised below.
+            self._exit_code = code
+
         self._running = False
 
         self.fire(stopped(self))
@@ -789,8 +796,9 @@ class Manager:
             for _ in range(3):
                 self.tick()
 
-        if code is not None:
-            raise SystemExit(code)
+            if self._exit_code is not None:
+                code, self._exit_code = self._exit_code, None
+                raise SystemExit(code)
 
     def processTask(self, event, task, parent=None):  # noqa
         # TODO: C901: This has a high McCabe complexity score of 16.
@@ -967,6 +975,12 @@ class Manager:
             with contextlib.suppress(Exception):
                 self.tick()
 
+        # take the exit code before stop() can see that the loop has ended
+        code, self._exit_code = self._exit_code, None
+
         self.root._executing_thread = None
         self.__thread = None
         self.__process = None
+
+        if code is not None:
+            raise SystemExit(code)
